@@ -43,7 +43,9 @@ func TaskNew() int32 {
 	tasks[i] = task{state: tRunnable, op: p.op, fam: p.fam, lastOp: p.lastOp, child: true, prio: p.prio}
 	res.Spawned++
 	progress++
-	return i
+	// the ticket carries the run generation: the goroutine may first get to run after
+	// this run is over
+	return i | int32(runGen&0x7fff)<<16
 }
 
 // TaskEnter parks the new goroutine until the scheduler runs it.
@@ -53,17 +55,23 @@ func TaskEnter(t int32) {
 	if t < 0 {
 		return
 	}
-	waitTurn(t)
+	slot, g := t&0xffff, int64(t>>16)
+	if g != runGen&0x7fff {
+		for { // its run is over: park for good
+			runtime.Gosched()
+		}
+	}
+	waitTurnGen(slot, runGen)
 }
 
 // TaskExit ends a spawned task (deferred; also runs when the goroutine panics).
 //
 //go:norace
 func TaskExit(t int32) {
-	if t < 0 || !active {
+	if t < 0 || !active || int64(t>>16) != runGen&0x7fff {
 		return
 	}
-	taskDone(t)
+	taskDone(t & 0xffff)
 }
 
 // ---- sync.WaitGroup: Wait is the blocking call. The simulator keeps a shadow counter
